@@ -90,9 +90,9 @@ def gen_program(rng, fw, maxlen):
             same = [j for j, t in enumerate(shapes) if t == s]
             rs = [rng.choice(same) for _ in range(rng.randint(1, 3))]
             if k == "cat" and rk >= 1:
-                d = rng.randrange(rk); ins = {"k": k, "rs": rs, "dim": d}; ns = list(s); ns[d] = s[d] * len(rs)
+                d = rng.randrange(rk); ins = {"k": k, "rs": rs, "dim": d - (rk if rng.random() < 0.3 else 0)}; ns = list(s); ns[d] = s[d] * len(rs)
             elif k == "stack":
-                d = rng.randint(0, rk); ins = {"k": k, "rs": rs, "dim": d}; ns = s[:d] + [len(rs)] + s[d:]
+                d = rng.randint(0, rk); ins = {"k": k, "rs": rs, "dim": d - (rk + 1 if rng.random() < 0.3 else 0)}; ns = s[:d] + [len(rs)] + s[d:]      # negative: counted from the end of the RESULT's axes
         elif k == "bin":
             same = [j for j, t in enumerate(shapes) if t == s]
             ins = {"k": k, "f": rng.choice(["add", "sub", "mul", "div"]), "r1": r, "r2": rng.choice(same)}; ns = list(s)
